@@ -2,7 +2,7 @@
 
 Alphabet: every bit string of length 0..10 and six patterns for every length 11..1023; reference
 counts 0..4; every DAG shape with <= 3 (quick) / <= 4 (thorough) distinct cells; depth chains
-1..1023 (+1024 must be refused); 14 construction routes.  Oracle: mc/ref/cell.py.
+1..1023 (+1024 must be refused); 21 construction routes.  Oracle: mc/ref/cell.py.
 """
 import base64, itertools
 from ..ref import cell as RC
@@ -29,7 +29,8 @@ ASSUMPTIONS = ['SHA-256 from hashlib is trusted', 'long bit-string contents by r
 NOT_ASSERTED = []
 
 ROUTES = ['builder', 'ctor_tvm', 'ctor_plain', 'ctor_plain_le', 'boc_bytes', 'boc_hex', 'boc_b64', 'copy', 'parse_to_cell', 'slice_from_cell',
-          'to_builder', 'builder_to_slice', 'builder_from_boc', 'slice_from_boc', 'boc_options', 'builder_reused', 'slice_reused', 'derived_mutated']
+          'to_builder', 'builder_to_slice', 'builder_from_boc', 'slice_from_boc', 'boc_options', 'builder_reused', 'slice_reused', 'derived_mutated',
+          'subclass_boc', 'subclass_ctor', 'subclass_copy']
 
 
 def BOUNDS(tier):
@@ -175,6 +176,13 @@ def _routes(rc, refs_lib):
     yield 'builder_reused', builder_reused
     yield 'slice_reused', slice_reused
     yield 'boc_options', lambda: Cell.one_from_boc(base().end_cell().to_boc(has_idx=True, hash_crc32=True, has_cache_bits=True))
+
+    class SubCell(Cell):         # from_boc / one_from_boc / empty are classmethods that build cls(...): a user subclass is an entry point too
+        pass
+
+    yield 'subclass_boc', lambda: SubCell.one_from_boc(base().end_cell().to_boc())
+    yield 'subclass_ctor', lambda: SubCell(tvm().bits, list(refs_lib), -1)
+    yield 'subclass_copy', lambda: SubCell.one_from_boc(base().end_cell().to_boc()).copy()
 
 
 def case_cell(rec, bits, nrefs, route):
@@ -427,6 +435,9 @@ def case_equality(rec, nbits, nrefs_max):
     by three routes; a == b  <=>  reference hashes equal, for ALL pairs; dict/set keyed by cells"""
     from bitarray import bitarray
     from pytoniq_core.boc import Cell, Builder
+
+    class _SubCell(Cell):
+        pass
     rec.case('equality')
     args = {'nbits': nbits, 'nrefs_max': nrefs_max}
     pool = []
@@ -446,13 +457,15 @@ def case_equality(rec, nbits, nrefs_max):
                     c1 = b.end_cell()
                     c2 = Cell.one_from_boc(c1.to_boc())
                     c3 = c1.copy()
-                    pool += [(rc.hash(), c1), (rc.hash(), c2), (rc.hash(), c3)]
+                    c4 = _SubCell.one_from_boc(c1.to_boc())        # the same cell as an instance of a user subclass of Cell
+                    c5 = c4.begin_parse().to_cell()
+                    pool += [(rc.hash(), c1), (rc.hash(), c2), (rc.hash(), c3), (rc.hash(), c4), (rc.hash(), c5)]
     rec.trans(len(pool))
     n = 0
     for (h1, a), (h2, b) in itertools.combinations(pool, 2):
         n += 1
-        if (a == b) != (h1 == h2):
-            rec.violation('equality:eq', f'{a!r} == {b!r} is {a == b} but reference hashes equal is {h1 == h2}', 'case_equality', args)
+        if (a == b) != (h1 == h2) or (b == a) != (h1 == h2) or (a != b) == (h1 == h2):
+            rec.violation('equality:eq', f'{type(a).__name__} {a!r} == {type(b).__name__} {b!r} is {a == b} (reversed {b == a}, != {a != b}) but reference hashes equal is {h1 == h2}', 'case_equality', args)
             break
         if h1 == h2 and hash(a) != hash(b):
             rec.violation('equality:hash', f'equal cells with different __hash__: {a!r}', 'case_equality', args)
